@@ -38,6 +38,17 @@ Dist(d, g) == Cardinality({f \in Fields : d[f] # g[f]})
 (***************************************************************************)
 (* the statement's acceptance predicate                                    *)
 (***************************************************************************)
+\* (AcceptX takes the NTS setting as a parameter: the trace specification judges
+\* records of clients with and without NTS in one run)
+AcceptX(d, il, ntson) ==
+  /\ d.src = "server" /\ d.dst = "client" /\ d.l4 = "udp"
+  /\ d.len = "ok"
+  /\ (d.origin = "tx" \/ (il /\ d.origin = "rx"))
+  /\ d.mode = 4 /\ d.vn \in {3, 4} /\ d.li # 3
+  /\ d.stratum \in 1 .. 15
+  /\ d.txrx # "before"
+  /\ ntson => d.nts = "ok"
+
 Accept(d, il) ==
   /\ d.src = "server" /\ d.dst = "client" /\ d.l4 = "udp"
   /\ d.len = "ok"
